@@ -72,7 +72,7 @@ def worker_main() -> int:
                         rec['recheck'] = (rec2['event_digest'] == rec['event_digest'])
                 else:
                     replay = job.get('replay')
-                    ch = Choices(replay=replay) if replay is not None else run_choices(base_seed, idx)
+                    ch = Choices(replay=replay) if replay is not None else run_choices(base_seed, idx - job.get('seed_offset', 0))
                     rec = chk.run(ch, workdir, tier)
                     rec['idx'] = idx
                     if rec['violations'] or job.get('want_draws'):
@@ -337,8 +337,16 @@ def run_batch(prop: str, tier: str, base_seed: int, jobs: int) -> int:
             cases = cases[:int(os.environ['VERIF_RUNS'])]
     total = chk.quick_runs if tier == 'quick' else chk.thorough_runs
     total = int(os.environ.get('VERIF_RUNS', total))
+    seed_offset = 0
     if cases is not None:
-        total = len(cases)
+        # enumeration checks may add seeded (sampled) runs after their enumerated cases
+        seed_offset = len(cases)
+        extra = 0
+        if getattr(chk, 'mixed', False):
+            extra = chk.quick_runs if tier == 'quick' else chk.thorough_runs
+            if 'VERIF_RUNS' in os.environ:
+                extra = min(extra, int(os.environ['VERIF_RUNS']))
+        total = len(cases) + extra
     chunk_per_worker = 250
     wall_cap = float(os.environ.get('VERIF_WALL_CAP', 1500 if tier == 'quick' else 7200))
     records: list[dict] = []
@@ -354,9 +362,11 @@ def run_batch(prop: str, tier: str, base_seed: int, jobs: int) -> int:
             mine = [i for i in idxs if i % jobs == w]
             if not mine:
                 continue
-            job = {'prop': prop, 'tier': tier, 'base_seed': base_seed, 'recheck_every': 10, 'per_run_timeout': 180}
+            job = {'prop': prop, 'tier': tier, 'base_seed': base_seed, 'recheck_every': 10, 'per_run_timeout': 180,
+                   'seed_offset': seed_offset}
             if cases is not None:
-                job['cases'] = [(i, cases[i]) for i in mine]
+                job['cases'] = [(i, cases[i]) for i in mine if i < seed_offset]
+                job['indexes'] = [i for i in mine if i >= seed_offset]
             else:
                 job['indexes'] = mine
             procs.append((spawn_worker(job, w % HASH_CLASSES), mine))
@@ -383,9 +393,10 @@ def run_batch(prop: str, tier: str, base_seed: int, jobs: int) -> int:
     xprocs = []
     for hs in sorted({i % jobs % HASH_CLASSES for i in sample_idx}):
         mine = [i for i in sample_idx if i % jobs % HASH_CLASSES == hs]
-        job = {'prop': prop, 'tier': tier, 'base_seed': base_seed, 'per_run_timeout': 180}
+        job = {'prop': prop, 'tier': tier, 'base_seed': base_seed, 'per_run_timeout': 180, 'seed_offset': seed_offset}
         if cases is not None:
-            job['cases'] = [(i, cases[i]) for i in mine]
+            job['cases'] = [(i, cases[i]) for i in mine if i < seed_offset]
+            job['indexes'] = [i for i in mine if i >= seed_offset]
         else:
             job['indexes'] = mine
         xprocs.append((spawn_worker(job, hs), mine))
@@ -413,7 +424,10 @@ def run_batch(prop: str, tier: str, base_seed: int, jobs: int) -> int:
     if enum_info is not None:
         extra_cov = dict(extra_cov or {})
         extra_cov['enumeration'] = enum_info
-        extra_cov['exhaustive'] = bool(enum_info.get('exhaustive')) and len(records) == len(cases) and 'VERIF_RUNS' not in os.environ
+        n_enum = sum(1 for r in records if r.get('case') is not None)
+        extra_cov['exhaustive'] = bool(enum_info.get('exhaustive')) and n_enum == len(cases) and 'VERIF_RUNS' not in os.environ
+        extra_cov['enumerated_cases'] = n_enum
+        extra_cov['sampled_runs'] = len(records) - n_enum
     return finish(chk, prop, tier, base_seed, jobs, records, harness_errors, det_checked, det_failed, t_start, extra_cov)
 
 
@@ -494,6 +508,13 @@ def finish(chk, prop, tier, base_seed, jobs, records, harness_errors, det_checke
         'repo': repo_rev(),
         'harness_errors': harness_errors[:5],
     }
+    if violations:
+        by_code: dict[str, dict] = {}
+        for _idx, v, _r in violations:
+            key = v['code'] + ' ' + json.dumps(v['sig'], sort_keys=True, default=repr)
+            ent = by_code.setdefault(key, {'count': 0, 'first_run_index': _idx, 'example': v['detail'][:300]})
+            ent['count'] += 1
+        coverage['violation_classes'] = by_code
     if extra_coverage:
         coverage.update(extra_coverage)
     if shrink_info:
@@ -660,7 +681,44 @@ def replay_cmd(path: str) -> int:
     return 0
 
 
+def mkreplay_cmd(prop: str, tier: str, idx: int, code: Optional[str] = None) -> int:
+    """Re-run one run index of a batch and write its (minimised) replay file."""
+    from .registry import get_check
+    chk = get_check(prop)
+    base_seed = int(os.environ.get('VERIF_SEED', DEFAULT_SEED))
+    jobs = int(os.environ.get('VERIF_JOBS', 16))
+    hs = idx % jobs % HASH_CLASSES
+    job = {'prop': prop, 'tier': tier, 'base_seed': base_seed, 'per_run_timeout': 180, 'want_draws': True}
+    if hasattr(chk, 'enumerate_cases'):
+        res, err = run_sub('_enumerate', {'prop': prop, 'tier': tier, 'base_seed': base_seed}, 0, 900)
+        cases = res['cases']
+        job['seed_offset'] = len(cases)
+        if idx < len(cases):
+            job['cases'] = [(idx, cases[idx])]
+        else:
+            job['indexes'] = [idx]
+    else:
+        job['indexes'] = [idx]
+    recs, err = collect(spawn_worker(job, hs), 600)
+    recs = [r for r in recs if not r.get('done')]
+    if err or not recs or 'harness_error' in recs[0]:
+        print('HARNESS-ERROR', err or recs)
+        return 2
+    r = recs[0]
+    known = load_known()
+    vs = [v for v in r['violations'] if (code is None or v['code'] == code)]
+    if not vs:
+        print(f'run {idx} of {prop} has no violation' + (f' with code {code}' if code else ''), [v['code'] for v in r['violations']])
+        return 0
+    path, info = make_replay(chk, prop, tier, base_seed, idx, hs, vs[0], r)
+    print(f'wrote {path}: {vs[0]["code"]}: {vs[0]["detail"][:300]}')
+    print(info)
+    return 1
+
+
 def main(argv) -> int:
+    if len(argv) >= 5 and argv[1] == 'mkreplay':
+        return mkreplay_cmd(argv[2], argv[3], int(argv[4]), argv[5] if len(argv) > 5 else None)
     if len(argv) >= 2 and argv[1] == '_worker':
         return worker_main()
     if len(argv) >= 2 and argv[1] == '_shrink':
